@@ -466,6 +466,12 @@ def check_local_allocs(ctx, unit, fns, rule="O1.alloc-escapes"):
                                     if pa.kind == "DeclRefExpr" and pa.d["d"] in xs:
                                         xs.add(d["d"])
                                         grew = True
+                                else:
+                                    # y = x, or y = helper(...) where the (virtually inlined) helper returns x
+                                    cp = std_unwrap(iv)
+                                    if cp.kind == "DeclRefExpr" and cp.d["d"] in xs:
+                                        xs.add(d["d"])
+                                        grew = True
 
             def is_x(m):
                 m = std_unwrap(m)
